@@ -54,6 +54,13 @@ T = {
  'C03': dict(design='4/C03', technique='metamorphic property-based testing: bijective renaming, list permutation, element reversal and re-referencing of networks, phasor circuits, state-space models and transient runs',
              text='A generated base case (network, phasor circuit, dynamic circuit) is solved before and after a generated transformation; potential differences, voltages, currents, powers, port impedances, per-source frequency responses and transient waveforms must agree up to the renaming and the sign of the reversed elements\' own voltage and current. Library vs itself, no reference needed; exact domain tests only decide which cases are judged.',
              note='Relative tolerance 1e-7 (1e-5 for state-space quantities) of the natural scale of the base solution; labels come from adversarial pools whose sort order interleaves element kinds.'),
+
+ 'C05': dict(design='4/C05', technique='property-based testing of power invariants (Tellegen sum, recomputation from separately queried V and I, sign rules) + differential check against exact powers',
+             text='Generated networks, phasor circuits (peak/RMS, DC), multi-frequency circuits x instants and transient runs; the complex (or instantaneous) powers must sum to zero with linear sources counted as delivered, equal V*conj(I) / half / V*I / v*i of the separately queried quantities and the exact tableau powers, and obey the sign rules for resistors, inductors and capacitors (classes from the generated spec).',
+             note='Trusts the reference directions of DESIGN 0.1 and the exact reference of C01/C02/C09/C12; sign rules with slack 1e-6 of the power scale.'),
+ 'C09': dict(design='4/C09', technique='property-based differential testing of the multi-frequency steady state against exact per-frequency phasors with true Fourier coefficients + superposition / KCL / Bessel-bound relations',
+             text='Generated RLC circuits with DC, sinusoidal and periodic ideal sources whose frequencies coincide exactly or only up to rounding x w_max x instants; the frequency list, every spectral line, every time function, KCL at every instant, the sum of single-source responses, the reproduction of a periodic source\'s waveform (Bessel bound) and the two-sided mirror symmetry are checked.',
+             note='All sources ideal; ambiguous frequency spacings and w_max at a non-dyadic harmonic are not judged; open finding F8 (two-sided spectrum raises) is reported as KNOWN-FINDING.'),
 }
 
 DEFAULT_LEVEL = 'exploration'
